@@ -1,6 +1,6 @@
 (* C07/Properties.v -- pinned statements of property C07. *)
 From Sophia.C02 Require Import Model.
-From Sophia.C07 Require Import Model Keys Isort Proofs LoopModel LoopProofs EntryModel EntryProofs.
+From Sophia.C07 Require Import Model Keys Isort Proofs LoopModel LoopProofs EntryModel EntryProofs TwinModel TwinProofs.
 From Coq Require Import Permutation.
 
 (* no false negative, for every hash function, renaming (injective on the blank nodes present,
@@ -202,3 +202,141 @@ Print Assumptions no_merge_satisfiable_toy.
 Print Assumptions adv_not_mono.
 Print Assumptions both_fail.
 Print Assumptions graph_copy.
+
+(* ================= twins: the order used for sorting is exactly as fine as the pairwise equality ================= *)
+Check (iso_order_as_fine_as_equality : forall a b, wf a -> wf b -> (iso_cmp a b = Eq <-> iso_eqb a b = true)).
+Check (quad_order_as_fine_as_equality : forall a b, wfq a -> wfq b ->
+  (quad_cmp iso_cmp a b = Eq <-> quad_eqb iso_eqb a b = true)).
+(* no ground atom is ignored by either relation *)
+Check (iso_cmp_ground : forall a b, bnodes_t a = [] -> bnodes_t b = [] -> iso_cmp a b = term_cmp a b).
+Check (iso_eqb_ground : forall a b, bnodes_t a = [] -> bnodes_t b = [] -> iso_eqb a b = term_eqb a b).
+Check (ground_terms_distinguished : forall a b, wf a -> wf b -> bnodes_t a = [] -> bnodes_t b = [] ->
+  term_eqb a b = false -> iso_cmp a b <> Eq /\ iso_eqb a b = false).
+Check (iso_cmp_language_tag : forall l t1 t2, iso_cmp (LitLang l t1) (LitLang l t2) = str_cmp (lower t1) (lower t2)).
+Check (language_tags_distinguished : forall l t1 t2, iso_cmp (LitLang l t1) (LitLang l t2) = Eq <-> lower t1 = lower t2).
+Check (iso_cmp_lexical_tagged : forall l1 l2 t, iso_cmp (LitLang l1 t) (LitLang l2 t) = str_cmp l1 l2).
+Check (iso_cmp_datatype : forall l d1 d2, iso_cmp (LitDt l d1) (LitDt l d2) = str_cmp d1 d2).
+Check (iso_cmp_lexical : forall l1 l2 d, iso_cmp (LitDt l1 d) (LitDt l2 d) = str_cmp l1 l2).
+Check (iso_cmp_tagged_vs_typed : forall l t d, d <> rdf_langString ->
+  iso_cmp (LitLang l t) (LitDt l d) = str_cmp rdf_langString d /\ iso_cmp (LitLang l t) (LitDt l d) <> Eq).
+Check (iso_cmp_iri : forall a b, iso_cmp (Iri a) (Iri b) = str_cmp a b).
+Check (iso_cmp_variable : forall a b, iso_cmp (Var a) (Var b) = str_cmp a b).
+Check (iso_cmp_bnode : forall a b, iso_cmp (Bnode a) (Bnode b) = Eq).
+(* one position of a statement (subject / predicate / object / graph name, any depth inside quoted triples, or the
+   presence of the graph name): two statements equal up to blank node labels everywhere else are ordered by what
+   stands at that position, and are order-equal iff they are blank-blind equal *)
+Check (put_t_cmp : forall path t1 t2 x y, wf t1 -> wf t2 -> iso_eqb t1 t2 = true -> valid_t path t1 = true ->
+  iso_cmp (put_t path x t1) (put_t path y t2) = iso_cmp x y).
+Check (put_q_cmp : forall pos path q1 q2 x y, wfq q1 -> wfq q2 ->
+  quad_eqb iso_eqb q1 q2 = true -> valid_q pos path x q1 = true -> valid_q pos path y q2 = true ->
+  quad_cmp iso_cmp (put_q pos path x q1) (put_q pos path y q2) = atom_cmp x y).
+Check (put_q_eqb : forall pos path q1 q2 x y, wfq q1 -> wfq q2 -> wf_opt x -> wf_opt y ->
+  quad_eqb iso_eqb q1 q2 = true -> valid_q pos path x q1 = true -> valid_q pos path y q2 = true ->
+  (quad_cmp iso_cmp (put_q pos path x q1) (put_q pos path y q2) = Eq <-> atom_eqb x y = true)).
+Check (twins_order_iff_equality : forall pos path q1 q2 x y, wfq q1 -> wfq q2 -> wf_opt x -> wf_opt y ->
+  quad_eqb iso_eqb q1 q2 = true -> valid_q pos path x q1 = true -> valid_q pos path y q2 = true ->
+  (quad_eqb iso_eqb (put_q pos path x q1) (put_q pos path y q2) = true <-> atom_eqb x y = true)).
+Check (twin_pair_ok_holds : forall pos path t1 t2 x1 x2, wfq t1 -> wfq t2 -> wf_opt x1 -> wf_opt x2 ->
+  quad_eqb iso_eqb t1 t2 = true -> valid_q pos path x1 t1 = true -> valid_q pos path x2 t2 = true ->
+  atom_eqb x1 x2 = false ->
+  twin_pair_ok pos path (t1, x1) (t2, x2) = true).
+(* the sorted sequences of blanked statements of a copy are EQUAL whatever the enumeration orders, so the pairwise
+   comparison after sorting succeeds *)
+Check (sorted_keys_order_independent : forall pi d1 d2,
+  Forall wfq d1 -> Permutation d2 (map (rename_q pi) d1) ->
+  map key (sort_q iso_cmp d1) = map key (sort_q iso_cmp d2)).
+Check (precheck_passes_on_copies : forall pi d1 d2,
+  Forall wfq d1 -> Permutation d2 (map (rename_q pi) d1) ->
+  all2 (quad_eqb iso_eqb) (sort_q iso_cmp d1) (sort_q iso_cmp d2) = true).
+(* the class of defects: ANY order coarser than the equality answers false on {x, y} against {y, x}; ANY equality
+   coarser than the order answers true on {x} against {y} *)
+Check (coarser_order_false_negative : forall Hv (tcmp : term -> term -> comparison) s p x y fuel,
+  tcmp s s = Eq -> tcmp p p = Eq -> tcmp x y = Eq -> tcmp y x = Eq -> iso_eqb x y = false ->
+  isomorphic Hv iso_eqb tcmp fuel [stmt s p x; stmt s p y] [stmt s p y; stmt s p x] = Some false
+  /\ Permutation [stmt s p y; stmt s p x] [stmt s p x; stmt s p y]).
+Check (coarser_order_false_negative_q : forall Hv (tcmp : term -> term -> comparison) a b fuel,
+  quad_cmp tcmp a b = Eq -> quad_cmp tcmp b a = Eq -> quad_eqb iso_eqb a b = false ->
+  isomorphic Hv iso_eqb tcmp fuel [a; b] [b; a] = Some false).
+Check (coarser_equality_false_positive : forall Hv (teq : term -> term -> bool) s p x y fuel,
+  teq s s = true -> teq p p = true -> teq x y = true ->
+  bnodes_t s = [] -> bnodes_t p = [] -> bnodes_t x = [] -> bnodes_t y = [] ->
+  isomorphic Hv teq iso_cmp (S fuel) [stmt s p x] [stmt s p y] = Some true).
+Check (notag_order_false_negative : forall Hv fuel,
+  isomorphic Hv iso_eqb iso_cmp_notag fuel
+    [stmt (Bnode [120]) (Iri [112]) (chat [102;114]); stmt (Bnode [120]) (Iri [112]) (chat [101;110])]
+    [stmt (Bnode [121]) (Iri [112]) (chat [101;110]); stmt (Bnode [121]) (Iri [112]) (chat [102;114])] = Some false).
+Check (real_order_accepts :
+  iso_run
+    [stmt (Bnode [120]) (Iri [112]) (chat [102;114]); stmt (Bnode [120]) (Iri [112]) (chat [101;110])]
+    [stmt (Bnode [121]) (Iri [112]) (chat [101;110]); stmt (Bnode [121]) (Iri [112]) (chat [102;114])] = Some true).
+Check (notag_equality_false_positive : forall Hv fuel,
+  isomorphic Hv iso_eqb_notag iso_cmp (S fuel)
+    [stmt (Iri [115]) (Iri [112]) (chat [102;114])] [stmt (Iri [115]) (Iri [112]) (chat [101;110])] = Some true).
+Check (real_equality_rejects : forall Hv fuel,
+  isomorphic Hv iso_eqb iso_cmp fuel
+    [stmt (Iri [115]) (Iri [112]) (chat [102;114])] [stmt (Iri [115]) (Iri [112]) (chat [101;110])] = Some false).
+(* every relative order of a twin group: perms enumerates exactly the permutations, and none of them is answered false *)
+Check (@perms_sound : forall (A : Type) (l l' : list A), In l' (perms l) -> Permutation l l').
+Check (@perms_complete : forall (A : Type) (l l' : list A), Permutation l l' -> In l' (perms l)).
+Check (all_orders_never_false : forall Hv pi d1 front group back g fuel,
+  Forall wfq d1 -> Permutation (front ++ group ++ back) (map (rename_q pi) d1) ->
+  inj_on pi (flat_map bnodes_q d1) -> In g (perms group) ->
+  isomorphic Hv iso_eqb iso_cmp fuel d1 (front ++ g ++ back) <> Some false).
+(* language tags in another case mix: the answer only depends on the lower-cased tags, and a renamed, reordered,
+   re-cased copy is never answered false *)
+Check (iso_canon_r : forall Hv fuel d1 d2,
+  isomorphic Hv iso_eqb iso_cmp fuel d1 (map canon_q d2) = isomorphic Hv iso_eqb iso_cmp fuel d1 d2).
+Check (iso_canon_l : forall Hv fuel d1 d2,
+  isomorphic Hv iso_eqb iso_cmp fuel (map canon_q d1) d2 = isomorphic Hv iso_eqb iso_cmp fuel d1 d2).
+Check (iso_no_false_negative_recased : forall (Hv : vquad -> N) (pi : str -> str) (d1 d2 : list quad) fuel,
+  Forall wfq d1 ->
+  Permutation (map canon_q d2) (map canon_q (map (rename_q pi) d1)) ->
+  inj_on pi (flat_map bnodes_q d1) ->
+  isomorphic Hv iso_eqb iso_cmp fuel d1 d2 <> Some false).
+(* non-vacuity: a twin pair inside a quoted triple in the graph name, with per-twin blank nodes, passes twin_ok; the
+   same statements with equal atoms do not *)
+Example twin_ok_example :
+  let t b := mkQ (Bnode b) (Iri [112]) (Iri [111]) (Some (Triple (Iri [97]) (Iri [112]) (Iri [104]))) in
+  let d := [put_q 3 [2] (Some (chat [102;114])) (t [120]); put_q 3 [2] (Some (chat [101;110])) (t [121])] in
+  twin_ok 3 [2] [(t [120], Some (chat [102;114])); (t [121], Some (chat [101;110]))] d = true
+  /\ twin_ok 3 [2] [(t [120], Some (chat [69;78])); (t [121], Some (chat [101;110]))] d = false
+  /\ twin_ok 3 [] [(t [120], None); (t [121], Some (Iri [103]))] [put_q 3 [] None (t [120]); put_q 3 [] (Some (Iri [103])) (t [121])] = true
+  /\ all_orders_ok d [] (rev d) [] true = true.
+Proof. vm_compute. repeat split. Qed.
+
+Print Assumptions iso_order_as_fine_as_equality.
+Print Assumptions quad_order_as_fine_as_equality.
+Print Assumptions iso_cmp_ground.
+Print Assumptions iso_eqb_ground.
+Print Assumptions ground_terms_distinguished.
+Print Assumptions iso_cmp_language_tag.
+Print Assumptions language_tags_distinguished.
+Print Assumptions iso_cmp_lexical_tagged.
+Print Assumptions iso_cmp_datatype.
+Print Assumptions iso_cmp_lexical.
+Print Assumptions iso_cmp_tagged_vs_typed.
+Print Assumptions iso_cmp_iri.
+Print Assumptions iso_cmp_variable.
+Print Assumptions iso_cmp_bnode.
+Print Assumptions put_t_cmp.
+Print Assumptions put_q_cmp.
+Print Assumptions put_q_eqb.
+Print Assumptions twins_order_iff_equality.
+Print Assumptions twin_pair_ok_holds.
+Print Assumptions sorted_keys_order_independent.
+Print Assumptions precheck_passes_on_copies.
+Print Assumptions coarser_order_false_negative.
+Print Assumptions coarser_order_false_negative_q.
+Print Assumptions coarser_equality_false_positive.
+Print Assumptions notag_order_false_negative.
+Print Assumptions real_order_accepts.
+Print Assumptions notag_equality_false_positive.
+Print Assumptions real_equality_rejects.
+Print Assumptions perms_sound.
+Print Assumptions perms_complete.
+Print Assumptions all_orders_never_false.
+Print Assumptions iso_canon_r.
+Print Assumptions iso_canon_l.
+Print Assumptions iso_no_false_negative_recased.
+Print Assumptions recased_copy.
+Print Assumptions twin_ok_example.
